@@ -168,18 +168,15 @@ Proof.
   pose proof (Z.div_mod v d ltac:(lia)) as Hvd. pose proof (Z.mod_pos_bound v d Hd) as Hr.
   set (q := v / d) in *. set (r := v mod d) in *.
   assert (0 <= q) by (apply Z.div_pos; lia).
-  assert (Hrm : 0 <= r * m < d * m).
-  { split; [apply Z.mul_nonneg_nonneg; lia|]. destruct (Z.eq_dec m 0) as [->|]; [lia|].
-    apply Z.mul_lt_mono_pos_r; lia. }
+  assert (Hrm : 0 <= r * m <= d * m).
+  { split; [apply Z.mul_nonneg_nonneg; lia|]. apply Z.mul_le_mono_nonneg_r; lia. }
   assert (Hqm : 0 <= q * m) by (apply Z.mul_nonneg_nonneg; lia).
   assert (Hqm2 : (q + 1) * m = q * m + m) by lia.
   rewrite (wrap64_id (q * m)) by (unfold i64; lia).
   rewrite (wrap64_id (r * m)) by (unfold i64; lia).
   rewrite Z.quot_div_nonneg by lia.
   assert (Hdiv : 0 <= (r * m) / d <= m).
-  { split; [apply Z.div_pos; lia|]. destruct (Z.eq_dec m 0) as [->|].
-    - rewrite Z.mul_0_r, Z.div_0_l; lia.
-    - apply Z.lt_le_incl. apply Z.div_lt_upper_bound; lia. }
+  { split; [apply Z.div_pos; lia|]. apply Z.div_le_upper_bound; lia. }
   rewrite wrap64_id by (unfold i64; lia).
   replace (v * m) with (q * m * d + r * m) by (rewrite Hvd; lia).
   rewrite Z.div_add_l by lia. reflexivity.
@@ -208,15 +205,12 @@ Proof.
     pose proof (Z.mod_pos_bound u d Hd) as Hr.
     set (q := u / d) in *. set (r := u mod d) in *.
     assert (0 <= q) by (apply Z.div_pos; lia).
-    assert (Hrm : 0 <= r * m < d * m).
-    { split; [apply Z.mul_nonneg_nonneg; lia|]. destruct (Z.eq_dec m 0) as [->|]; [lia|].
-      apply Z.mul_lt_mono_pos_r; lia. }
+    assert (Hrm : 0 <= r * m <= d * m).
+    { split; [apply Z.mul_nonneg_nonneg; lia|]. apply Z.mul_le_mono_nonneg_r; lia. }
     assert (Hqm : 0 <= q * m) by (apply Z.mul_nonneg_nonneg; lia).
     assert (Hqm2 : (q + 1) * m = q * m + m) by lia.
     assert (Hdiv : 0 <= (r * m) / d <= m).
-    { split; [apply Z.div_pos; lia|]. destruct (Z.eq_dec m 0) as [->|].
-      - rewrite Z.mul_0_r, Z.div_0_l; lia.
-      - apply Z.lt_le_incl. apply Z.div_lt_upper_bound; lia. }
+    { split; [apply Z.div_pos; lia|]. apply Z.div_le_upper_bound; lia. }
     rewrite (wrap64_id (q * m)), (wrap64_id (r * m)) in Hpos by (unfold i64; lia).
     rewrite Z.quot_div_nonneg in Hpos by lia.
     rewrite wrap64_id in Hpos by (unfold i64; lia).
